@@ -281,22 +281,57 @@ fn prop_history(c: &EditCase, ctx: &Ctx) -> PResult {
         match e {
             Edit::ReplaceLod { lod, meshes } => {
                 let l = *lod as usize % spec.lods.len();
-                let mut start = 0u32;
-                for p in 0..spec.lods[l].len() {
+                let n = spec.lods[l].len();
+                // pass 1: the new meshes (same declaration, new geometry, canonical encodings)
+                let mut new_meshes: Vec<MeshSpec> = vec![];
+                for p in 0..n {
                     let (vc, ic, weights, seed) = &meshes[p % meshes.len()];
-                    // same declaration, new geometry, canonical encodings
-                    let old = spec.lods[l][p].clone();
-                    let old = &old;
+                    let old = &spec.lods[l][p];
                     let seed_mesh = MeshSeed { elems: old.elements.iter().map(|e| (e.usage, 0, e.stream, 0, 0)).collect(), stream_count: old.stream_count, tail_gaps: [0; 3], stream_gaps: [0; 3], vertex_count: *vc, index_count: if *vc == 0 { 0 } else { *ic }, material_index: old.material_index, submesh_weights: weights.iter().take(old.submeshes.len()).copied().chain(std::iter::repeat(1)).take(old.submeshes.len()).collect(), bone_table_index: old.bone_table_index, seed: *seed };
                     let mut new_mesh = realise_mesh(&seed_mesh, &WRITE_PAIRS, true);
                     // keep the exact declaration (types and offsets) of the existing mesh
                     new_mesh.elements = old.elements.clone();
                     new_mesh.strides = old.strides;
                     // regenerate canonical streams for the kept layout
-                    let relaid = relay(&new_mesh, *seed);
-                    let new_mesh = relaid;
+                    new_meshes.push(relay(&new_mesh, *seed));
+                }
+                // where each mesh's indices lie in the LOD's index section is the caller's choice (it is expressed only
+                // through the sub-mesh ranges): usually in mesh order, in a third of the edits in another order
+                let sel = meshes[0].3;
+                let mut order: Vec<usize> = (0..n).collect();
+                if n >= 2 && sel % 3 == 0 {
+                    order.rotate_left(1 + (sel >> 8) as usize % (n - 1));
+                    if (sel >> 16) & 1 == 1 {
+                        order.reverse();
+                    }
+                    ctx.class("edit:index-section-not-in-mesh-order");
+                }
+                let mut starts = vec![0u32; n];
+                let mut at = 0u32;
+                for &p in &order {
+                    starts[p] = at;
+                    at += new_meshes[p].indices.len() as u32;
+                }
+                // the sub-mesh values handed in can only be copies of parsed ones (their table slot is private): a
+                // caller may have taken them from the part being edited or from any other part of the model
+                let donors: Vec<(usize, usize)> = mdl.lods.iter().enumerate().flat_map(|(dl, lod)| lod.parts.iter().enumerate().filter(|(_, part)| !part.submeshes.is_empty()).map(move |(dp, _)| (dl, dp))).collect();
+                for p in 0..n {
+                    let new_mesh = new_meshes[p].clone();
+                    let old = spec.lods[l][p].clone();
+                    let old = &old;
+                    let start = starts[p];
+                    let seed = meshes[p % meshes.len()].3;
+                    let vc = &meshes[p % meshes.len()].0;
                     let verts: Vec<Vertex> = (0..new_mesh.vertex_count as usize).map(|k| to_vertex(&decode_vertex(&new_mesh, k))).collect();
                     let mut subs = mdl.lods[l].parts[p].submeshes.clone();
+                    if (seed >> 24) % 3 == 0 && !donors.is_empty() && !subs.is_empty() {
+                        let (dl, dp) = donors[(seed >> 32) as usize % donors.len()];
+                        if (dl, dp) != (l, p) {
+                            let d = &mdl.lods[dl].parts[dp].submeshes;
+                            subs = (0..subs.len()).map(|i| d[i % d.len()]).collect();
+                            ctx.class("edit:sub-mesh-values-copied-from-another-part");
+                        }
+                    }
                     let mut so = start;
                     let mut exp_sub = vec![];
                     for (i, (cnt, _, _, _)) in new_mesh.submeshes.iter().enumerate() {
@@ -318,7 +353,6 @@ fn prop_history(c: &EditCase, ctx: &Ctx) -> PResult {
                     ep.submeshes = exp_sub;
                     ep.streams = (0..new_mesh.stream_count as usize).map(|s| new_mesh.streams[s].clone()).collect();
                     ep.start_index = start;
-                    start += new_mesh.indices.len() as u32;
                     spec.lods[l][p] = new_mesh;
                     ctx.class(if *vc as usize > old.vertex_count as usize { "edit:grow" } else { "edit:shrink-or-same" });
                 }
